@@ -354,7 +354,8 @@ def run_exe(exe, lines, tag, timeout_ms=5000, total_timeout=3000, restartable=Tr
     start = 0
     t0 = time.time()
     while start < len(lines):
-        rc, out, err, dt = sh([exe, path, str(start)], env={'PAKHI_CASE_TIMEOUT_MS': str(timeout_ms), 'PAKHI_SCRATCH': SCRATCH,
+        # memory cap: a runaway model or implementation must not take the machine down
+        rc, out, err, dt = sh(['bash', '-c', 'ulimit -v 12000000; exec "$0" "$@"', exe, path, str(start)], env={'PAKHI_CASE_TIMEOUT_MS': str(timeout_ms), 'PAKHI_SCRATCH': SCRATCH,
                                                          'OCAMLRUNPARAM': 'l=2000M'},
                               timeout=max(10, total_timeout - (time.time() - t0)))
         got = out.split('\n')
